@@ -25,6 +25,9 @@ func c05Section(f func() []string) (out []int64) {
 }
 
 func c05Impl(in []int64) []int64 {
+	if len(in) > 0 && in[0] == -5 {
+		return wideImpl(in)
+	}
 	tc, ok := decodeTrieCase(in, false)
 	if !ok {
 		return []int64{BADCASE}
@@ -115,6 +118,7 @@ func c05TryExh(t *T, family string, tc *trieCase, textIdx int) {
 }
 
 func c05Gen(c *Ctx) {
+	wideGen(c, -5) // very wide / very large tries, judged by the closed form of Run/C106.v
 	// 1. exhaustive: hand-written sets over {a,b,c} x all texts up to length L
 	L := c.N(6, 8)
 	nw := countWords(3, L)
@@ -328,9 +332,15 @@ func c05Gen(c *Ctx) {
 }
 
 func init() {
-	Register(&Prop{ID: "C05", Num: 5, SpecMode: "rel", Gen: c05Gen, Impl: c05Impl,
+	Register(&Prop{ID: "C05", Num: 5, NumOf: wideNum(5), SpecMode: "rel", Gen: c05Gen, Impl: c05Impl,
 		Shrink:   trieShrink(false),
-		Describe: func(in []int64) string { tc, _ := decodeTrieCase(in, false); return tc.describe(false) },
+		Describe: func(in []int64) string {
+			if len(in) > 3 && (in[0] == -5 || in[0] == -6) {
+				return fmt.Sprintf("wide trie: all %d-rune patterns over the %d runes from U+%X; text runes, replacement, mask: %v", in[3], in[2], in[1], in[4:])
+			}
+			tc, _ := decodeTrieCase(in, false)
+			return tc.describe(false)
+		},
 		Rule: "pattern sets (shared prefixes, patterns nested as suffixes/infixes, duplicates, empty pattern) over {a,b,c}, a 2-, 3- and 4-byte rune and raw bytes 0xff/0xfe, plus truncated-sequence sets; " +
 			"all texts up to length 6 over {a,b,c} for 25 hand-written sets, all texts up to 3 units for the multi-byte sets, random longer texts, keys cut out of patterns, the late-long-occurrence family, wide tries (queue growth), dense / many-irregular / many-large tries (second and third growth of the BFS queue), rebuilds, and tries without a final BuildFailureLinks (model comparison only). " +
 			"About 3 cases in 8 (histogram `dump`; all of many-large, wide, rebuild; the first four texts of every exhaustive set) also observe the BUILT STRUCTURE: every node's word, isEnd, size, number of children and fail target, read from the real trie through reflect/unsafe, compared with the model's node table and with the automaton computed from the patterns alone. " +
